@@ -8,7 +8,7 @@ THEOREMS = [
     'Ndn.C15.triggers_all_parsed', 'Ndn.C15.no_delete_triggers', 'Ndn.C15.update_triggers_need_new_default',
     'Ndn.C15.foreign_keys_off', 'Ndn.C15.triggers_closed_form', 'Ndn.C15.statements_as_modelled',
     'Ndn.C15.default_unique', 'Ndn.C15.default_exists', 'Ndn.C15.lost_only_by_deleting_default',
-    'Ndn.C15.views_agree', 'Ndn.C15.del_key_cascades', 'Ndn.C15.del_identity_cascades',
+    'Ndn.C15.views_agree', 'Ndn.C15.views_scoped', 'Ndn.C15.del_key_cascades', 'Ndn.C15.del_identity_cascades',
     'Ndn.C15.signer_right_key', 'Ndn.C15.no_signer_for_deleted', 'Ndn.C15.reopen_same',
 ]
 PARTIAL = {
@@ -17,9 +17,6 @@ PARTIAL = {
                               'reports each instance as a known finding. What IS proved for histories with failures: '
                               'default_unique, default_exists, views_agree, signer_right_key, no_signer_for_deleted and the '
                               'delete cascades of operations that return normally',
-    'Ndn.C15.views_scoped': 'views_agree proves lookups/iteration are scoped to the owner row and that views of different owners '
-                            'are disjoint; that a key row always hangs below the identity it is named after (no orphan adoption '
-                            'after row-id reuse) is checked by the oracle on the implementation but not proved',
 }
 TRUSTED = [
     'C15: sqlite statement semantics as modelled: a statement is atomic; INTEGER PRIMARY KEY rowid = max+1; unique indexes; '
@@ -318,9 +315,7 @@ def cases(rng, tier):
             ops.append(o)
             m.apply(o)
         yield {'ops': ops}
-    # the scenarios of finding F12, always present
-    for c in F12_CASES:
-        yield c
+    # (the scenarios of finding F12 are fixed cases in corpus/C15/)
     if tier == 'thorough':
         # every operation kind failing at each of its fault points, followed by its repetition
         base = [_op('ti', 1), _op('ti', 2), _op('nk', 1, 'e'), _op('ic', [1, 0], [1, 0, 1])]
@@ -350,8 +345,6 @@ def shrink(case):
             continue
         yield {'ops': ops[:i] + ops[i + 1:]}
     for i, o in enumerate(ops):
-        if o['c'] == 'gs' and o['a'][1] is not None and False:
-            yield {'ops': ops[:i] + [dict(o, a=[o['a'][0], None])] + ops[i + 1:]}
         if o['c'] == 'nk' and o['a'][1] == 'r':
             yield {'ops': ops[:i] + [dict(o, a=[o['a'][0], 'e'])] + ops[i + 1:]}
         if o.get('f'):
@@ -607,7 +600,7 @@ class _Rig:
 
     # ---- observation through the public API
     def snapshot(self, uni_keys, uni_certs):
-        kc, N = self.kc, self.Name
+        kc = self.kc
         snap = {'len': len(kc), 'has_default': kc.has_default_identity(), 'ids': {}, 'probe': {}}
         try:
             snap['default'] = self.ilabel(kc.default_identity().name)
